@@ -352,4 +352,44 @@ theorem accept_none_fails (f : Flavor) {s : State} (hp : s.pending = none) (auth
     obtain ⟨p, hg, -⟩ := accept_ok h
     rw [hp] at hg; cases hg
 
+/-- the holder changes only through `accept` or `renounce` -/
+theorem holder_change {c : Cfg} {f : Flavor} {s s' : State} {auth : List Nat} {op : Op}
+    (h : apply c f s auth op = .ok s') (hne : s'.holder ≠ s.holder) :
+    (op = .accept ∧ ∃ p, Temp.get? s.pending s.now = some p ∧ p ∈ auth ∧ s'.holder = some p) ∨
+    (op = .renounce ∧ s'.holder = none ∧ Temp.get? s.pending s.now = none ∧
+      ∃ hd, s.holder = some hd ∧ hd ∈ auth) := by
+  cases op with
+  | offer new lu => obtain ⟨hd, -, -, h3, -⟩ := offer_ok h; exact absurd h3 hne
+  | accept =>
+    obtain ⟨p, h1, h2, h3, -⟩ := accept_ok h
+    exact Or.inl ⟨rfl, p, h1, h2, h3⟩
+  | renounce =>
+    obtain ⟨hd, h1, h2, h3, h4, -⟩ := renounce_ok h
+    exact Or.inr ⟨rfl, h4, h3, hd, h1, h2⟩
+  | guarded => obtain ⟨he, -⟩ := guarded_ok h; subst he; exact absurd rfl hne
+  | advance n => simp only [apply] at h; injection h with h; subst h; exact absurd rfl hne
+
+/-- once nobody holds the role (and the invariant holds), nobody ever does again -/
+theorem holder_none_final (c : Cfg) (f : Flavor) (rest : List (List Nat × Op)) :
+    ∀ x : GS, Inv c x → x.s.holder = none → (runG c f x rest).s.holder = none := by
+  induction rest with
+  | nil => intro x _ h; exact h
+  | cons a as ih =>
+    intro x hi hn
+    simp only [runG, List.foldl_cons]
+    refine ih _ (stepG_inv c f hi a) ?_
+    obtain ⟨auth, op⟩ := a
+    unfold stepG
+    cases hx : apply c f x.s auth op with
+    | error e => exact hn
+    | ok s' =>
+      simp only
+      apply Classical.byContradiction
+      intro hne
+      rcases holder_change hx (by rw [hn]; exact hne) with ⟨-, p, hg, -, -⟩ | ⟨-, -, -, hd, h1, -⟩
+      · obtain ⟨o, ho, -, hl⟩ := inv_get?_some hi hg
+        obtain ⟨-, -, -, ⟨hd, w4, -⟩, w6⟩ := hi.wf o ho
+        rw [w6 hl, w4] at hn; cases hn
+      · rw [hn] at h1; cases h1
+
 end OZ.RoleTransfer
